@@ -57,3 +57,22 @@ func VerifC01_ValueShapes() {
 	h.hProbe()
 	vsym.Reach("done")
 }
+
+// VerifC01_ReadFromTables: programs in which the flushed log files are retired (closed, removed like WAL retention
+// removes fully flushed files, reopened), so that reads are served by the SSTables and by their load order, not
+// by replayed memtables: put+flush / delete+flush / retire+reopen steps, then a get of a symbolic probe key.
+func VerifC01_ReadFromTables() {
+	h := &hEnv{}
+	N := 5
+	if vsym.Thorough() {
+		N = 7
+	}
+	h.hKeys(2)
+	h.hOpen(true, false)
+	n := vsym.IntRange("n", 2, N)
+	for i := 0; i < n; i++ {
+		h.hStep(1<<hPutFlush|1<<hDelFlush|1<<hRetire, 0)
+	}
+	h.hProbe()
+	vsym.Reach("done")
+}
